@@ -354,6 +354,7 @@ class Session:
         self.gw = Gateway(self, connect_plan)
         self.client_kwargs = dict(client_kwargs or {})
         self.client = None
+        self.companions = []
         self.reads_in_flight = 0
         self.max_reads_in_flight = 0
         self.read_return_step = -1
@@ -393,6 +394,21 @@ class Session:
         if acts:
             for fn in acts:
                 fn()
+
+    # ---- a second client of the same process ------------------------------------------------------
+    def add_companion(self, kind=None, connect_plan=(("accept",),), client_kwargs=None):
+        """A second, independent client (own gateway, own callbacks) living in the same process and event loop.
+        -> Companion with .client, .gw, .received, .status_trace"""
+        comp = Companion(self, kind or self.kind, connect_plan, client_kwargs)
+        self.companions.append(comp)
+        return comp
+
+    async def _open(self, *args, **kw):
+        target = " ".join(str(a) for a in args) + " " + " ".join(str(v) for v in kw.values())
+        for comp in self.companions:
+            if comp.address in target:
+                return await comp.gw.open(*args, **kw)
+        return await self.gw.open(*args, **kw)
 
     # ---- client ------------------------------------------------------------------------------------
     def make_client(self):
@@ -443,8 +459,8 @@ class Session:
         loop.max_steps = max_steps
         saved_open = asyncio.open_connection
         saved_serial = io.serial_asyncio.open_serial_connection
-        asyncio.open_connection = self.gw.open
-        io.serial_asyncio.open_serial_connection = self.gw.open
+        asyncio.open_connection = self._open
+        io.serial_asyncio.open_serial_connection = self._open
         asyncio.set_event_loop(loop)
         loop.set_exception_handler(lambda l, ctx: self.task_errors.append(str(ctx.get("exception") or ctx.get("message"))))
         self.t0 = loop.time()
@@ -493,6 +509,56 @@ class Session:
 
     def elapsed_since_start(self):
         return self.loop.time() - self.t0
+
+
+class _Shadow:
+    """Read monitor state of a companion client (kept apart from the main client's)."""
+
+    def __init__(self, loop):
+        self.loop = loop
+        self.reads_in_flight = 0
+        self.max_reads_in_flight = 0
+        self.read_return_step = -1
+        self.read_returns_this_step = 0
+        self.spin_detected = False
+
+
+class Companion:
+    def __init__(self, session, kind, connect_plan, client_kwargs):
+        import nmea2000.ioclient as io
+        self.kind = kind
+        self.address = "companion%d" % len(session.companions)
+        self.shadow = _Shadow(session.loop)
+        self.gw = Gateway(self.shadow, connect_plan)
+        self.client_kwargs = dict(client_kwargs or {})
+        self.client = None
+        self.received = []
+        self.status_trace = []
+        self._loop = session.loop
+
+    def make_client(self):
+        """(inside the running loop)"""
+        import nmea2000.ioclient as io
+        kind, kw = self.kind, self.client_kwargs
+        if kind == "ebyte":
+            c = io.EByteNmea2000Gateway(self.address, 1, **kw)
+        elif kind == "actisense":
+            c = io.ActisenseNmea2000Gateway(self.address, 1, **kw)
+        elif kind == "yd":
+            c = io.YachtDevicesNmea2000Gateway(self.address, 1, **kw)
+        else:
+            c = io.WaveShareNmea2000Gateway("/dev/" + self.address, **kw)
+        self.client = c
+        loop = self._loop
+
+        async def on_status(state):
+            self.status_trace.append((loop.time(), state.name))
+
+        async def on_receive(msg):
+            self.received.append((loop.time(), msg))
+        c.set_status_callback(on_status)
+        c.set_receive_callback(on_receive)
+        return c
 
 
 def _task_name(t):
@@ -677,3 +743,33 @@ def passthrough_diff(kind, msgs, kwargs_factory, reconnect_before=()):
             out.append(("hash", f"message {i} ({g.id}): hash {a[7]} vs {b[7]}"))
         break
     return out
+
+
+def dual_client_delivery(kind, stream_a: bytes, stream_b: bytes, piece_a=7, piece_b=11, kwargs_a=None, kwargs_b=None):
+    """Two clients of one kind in one process, each on its own link; their streams arrive in small pieces (not aligned with packet
+    boundaries), alternating between the two links. -> (messages delivered by A, by B, session)"""
+    s = Session(kind, client_kwargs=kwargs_a or {})
+    comp = s.add_companion(kind, client_kwargs=kwargs_b or {})
+
+    async def main(s):
+        a = s.make_client()
+        b = comp.make_client()
+        await a.connect()
+        await b.connect()
+        await asyncio.sleep(0.1)
+        pa = [stream_a[i:i + piece_a] for i in range(0, len(stream_a), piece_a)]
+        pb = [stream_b[i:i + piece_b] for i in range(0, len(stream_b), piece_b)]
+        for i in range(max(len(pa), len(pb))):
+            if i < len(pa):
+                s.gw.link.feed(pa[i])
+                await asyncio.sleep(0)
+            if i < len(pb):
+                comp.gw.link.feed(pb[i])
+                await asyncio.sleep(0)
+            if i % 5 == 4:
+                await asyncio.sleep(0.01)
+        await asyncio.sleep(2.0)
+        await a.close()
+        await b.close()
+    s.outcome = s.run(main)
+    return [m for _, m in s.received], [m for _, m in comp.received], s
